@@ -322,6 +322,18 @@ Section Programs.
   Definition rkeys {A} (o : obs) (f : list nat -> prog (res A)) : prog (res A) :=
     match o with OKeys l => f l | _ => Ret (Err EOracleMiss) end.
 
+  (* KeySet.as_dict(private) *)
+  Fixpoint ksd_body (ks : list nat) (private : option bool) (acc : list pv) : prog (res pv) :=
+    match ks with
+    | [] => nop "ksd.ret" (Ret (Ok (PDict [(asc "keys", PList (rev acc))])))
+    | k :: r =>
+        nop "ksd.ensure" (pbindr (ensure_kid k) (fun _ =>
+        nop "ksd.append" (pbindr (as_dict k private) (fun v =>
+        nop "ksd.for" (ksd_body r private (v :: acc))))))
+    end.
+  Definition set_as_dict (s : nat) (private : option bool) : prog (res pv) :=
+    nop "ksd.init" (Act "ksd.for" (ASetKeys s) (fun o => rkeys o (fun ks => ksd_body ks private []))).
+
   Definition kid_matches (v : pv) (kid : option str) : bool :=
     match v, kid with
     | PNone, None => true
@@ -507,6 +519,7 @@ Section Programs.
   | CNewSet (ks : list nat)
   | CGetByKid (s : nat) (kid : option str)
   | CPick (s : nat) (alg : string)
+  | CSetAsDict (s : nat) (private : option bool)
   | CJws (sign : bool) (kr : keyref) (kid : option str) (alg : string) (allowed : option (list string))
          (crypto : option jcls).
 
@@ -520,6 +533,7 @@ Section Programs.
     | CGetByKid s kid => pbindr (get_by_kid s kid) (fun k => Ret (Ok (PInt (Z.of_nat k))))
     | CPick s alg => pbindr (pick_random s alg)
                        (fun o => Ret (Ok (match o with Some k => PInt (Z.of_nat k) | None => PNone end)))
+    | CSetAsDict s p => set_as_dict s p
     | CJws sg kr kid alg allowed cr => jws_op sg kr kid alg allowed cr
     end.
 End Programs.
